@@ -17,7 +17,7 @@ CHECKS = {
    category="model_checking",
    text="MC_CritPath: relaxation in line order + chain pick on every graph with <= 4 instructions, zero latencies, load stages and ties equals the declarative longest chain, itself cross-checked "
         "against brute-force chain enumeration. Every enumerated graph is rendered as a kernel with exactly that dependency graph and analysed by the real code; random kernels, the MC_Deps kernels and all "
-        "shipped example/test kernels on shipped models follow; TLC validates value in CPAllowed, marked lines form a chain, cells sum to the total.",
+        "shipped example/test kernels on shipped models follow; TLC validates value in CPAllowed, marked lines form a chain, cells sum to the total. Since the fifth session the synthetic shape table has a store, so that models declaring hidden_loads flag composed loads as hidden (load stage must survive); whole-run traces carry the front-door events of Osaca.tla.",
    design_ref="5/C04", technique="TLA+ longest-chain spec (TLC exhaustive on small graphs) + replay of all enumerated graphs + TLC trace validation",
    note="Where the statement is open (exec latency of a last instruction with separately modelled load stage) both readings are admitted."),
  "C05": dict(
@@ -31,7 +31,7 @@ CHECKS = {
    category="model_checking",
    text="MC_MemDeps: every program store;<=2 pointer ops;load over add/sub, copy, clobber, post-index, later stores and displacements {-8,0,8,16}: the register-change bookkeeping (Level B) links exactly "
         "when Deps.tla's symbolic addresses are provably equal; all enumerated programs are rendered for both ISAs (real mnemonics on shipped models, made-up mnemonics on synthetic ISA DBs) and analysed by "
-        "KernelDG; random longer programs with index registers, scales, pre/post-indexed accesses on every shipped model; TLC validates MustEdges <= observed <= MayEdges and the forwarding weight.",
+        "KernelDG; random longer programs with index registers, scales, pre/post-indexed accesses on every shipped model; TLC validates MustEdges <= observed <= MayEdges and the forwarding weight. Synthetic models write latencies as integers too and one ISA's model per run forwards in a fractional number of cycles (finding F49).",
    design_ref="5/C06", technique="TLA+ symbolic-address spec + bookkeeping state machine (TLC exhaustive) + replay of all enumerated programs + TLC trace validation",
    note="Unknown (clobbered) addresses admit either outcome; aliasing between different register names is not claimed."),
  "C14": dict(
@@ -83,14 +83,14 @@ CHECKS = {
    category="model_checking",
    text="TLC exhaustive on MC_Lookup (entry scan TryEntry/DropSuffix/GiveUp; FoundIffSomeMatch, FirstMatchWins, NeverWrongKind, ResultAllowed against the declarative three-valued Match) over the complete operand-kind x kind table of both ISAs "
         "(4 347 + 93 757 pairs) and all entry lists <= 2 (thorough <= 3: 1.2M + 0.68M states). Every initial state is emitted with its allowed result set and replayed on synthetic YAML models through get_instruction, assign_tp_lt and assign_src_dst "
-        "with operands produced by the real parsers; Trace_Lookup batch-validates seeded random models and every entry of every shipped model (thorough: all 14 491, with near-miss mutants) in file order read from the YAML text.",
+        "with operands produced by the real parsers; Trace_Lookup batch-validates seeded random models and every entry of every shipped model (thorough: all 14 491, with near-miss mutants) in file order read from the YAML text. The written memory kinds include gather / scatter addresses (vector index register).",
    design_ref="5/C07, 10.5", technique="TLA+ three-valued matching spec + entry-scan state machine; TLC exhaustive kind tables and entry lists, replay on synthetic models, batch trace validation of every shipped entry",
    note="Trusts harness/lookup_common.py (kind <-> YAML / assembly text, projection of loaded entries, file order from the YAML text) and the get_instruction spy; ten open points of the statement are nondeterministic in the spec (Lookup.tla header)."),
  "C08": dict(
    category="model_checking",
    text="TLC exhaustive on the kernel-level machine MC_Compose with the model's load/store tables as state: 32 table variants x kernels <= 2 (thorough: + kernels of 3 on 8 models) x 14 forms per ISA; invariants Inert, TablesUnchanged, UnknownIsZero, "
         "UnknownIffNeither, ComposedDominates; a run with the former deviation InPlaceRowExtension must violate Inert and its counterexample kernel is replayed on the code. Every terminal state is replayed on rendered models through add_semantics; "
-        "Trace_Compose follows recorded kernels from random synthetic models and a curated vocabulary on shipped models with the tables as state.",
+        "Trace_Compose follows recorded kernels from random synthetic models and a curated vocabulary on shipped models with the tables as state. Random models also write symbols as displacement, and every distinct line is analysed once more alone on a fresh model object (the composition is a function of instruction and model).",
    design_ref="5/C08, 10.5", technique="TLA+ composition spec with model tables as state + TLC exhaustive + replay on rendered models + batch trace validation",
    note="Open points: untyped store rows (F13), the type of '*'-class register forms, AArch64 rmw through an indexed operand; on AArch64 composition is exercised almost only on synthetic models (real memory instructions have own entries)."),
 
@@ -98,7 +98,7 @@ CHECKS = {
    category="model_checking",
    text="TLC model-checks PortSched (the greedy balancer as a state machine: Uniform, BeginPass, Move, Retire, EndPass with per-micro-op budgets carried across passes) on all kernels <= 2 over single- and two-micro-op forms on every pair of subsets of 3 ports: "
         "FeasibleAll (Hall condition over unions of micro-op port sets) and TotalsAreColumnSums are invariants; the configuration with the former deviation CapsResetPerPass exhibits the two-pass counterexample. Every emitted kernel is replayed on the code through "
-        "a synthetic YAML model (rows match the Level-B terminal rows exactly); snapshots of random synthetic models (2-6 ports, multi-character names incl. names that concatenate two one-character names, alternatives) and shipped models x corpus kernels at five stages (uniform, pass 1, pass 2, API and dict/CLI) are validated by TLC (Trace_Port); whole-run traces (Osaca.tla) check totals = column sums.",
+        "a synthetic YAML model (rows match the Level-B terminal rows exactly); snapshots of random synthetic models (2-6 ports, multi-character names incl. names that concatenate two one-character names, alternatives) and shipped models x corpus kernels at five stages (uniform, pass 1, pass 2, API and dict/CLI) are validated by TLC (Trace_Port); whole-run traces (Osaca.tla) check totals = column sums. The random models also compose read-modify-write forms (register form + load x multiplier + store x multiplier).",
    design_ref="5/C01, 10.6", technique="TLA+ Level-A feasibility (Hall) + Level-B balancer state machine, TLC exhaustive with terminal-state emission, replay, batch trace validation",
    note="Trusts harness/port_common.py rendering and projection onto the 1/12000 lattice; Level B does not model PickAlternative (alternatives are covered at Level A only)."),
  "C02": dict(
@@ -111,13 +111,13 @@ CHECKS = {
    category="model_checking",
    text="TLC explores the marker scan exhaustively (MC_Select: prologue/body/epilogue over 11 line kinds incl. look-alike movs and complete/incomplete/wrong marker bytes, 5-8 marker styles, both ISAs: 0.39M states quick, 2.7M thorough) and the --lines expansion (MC_SelectLines); "
         "every emitted file is rendered in seeded layouts and replayed on parse_file + reduce_to_section / get_line_range / inspect --lines; shipped and random long files and the four input variants (marked / --lines / only-those-lines / noise-inserted) of every shipped kernel x model "
-        "are validated by TLC (Trace_Select); whole-run traces (Osaca.tla) check that the analysed kernel is exactly the selected one.",
+        "are validated by TLC (Trace_Select); whole-run traces (Osaca.tla) check that the analysed kernel is exactly the selected one. Whole-run traces validate the front door of inspect (Osaca.tla: detect / parser / parsefail events, MC_FrontDoor): parser, markers and model are those of the named architecture, or of the default of the detected ISA, or after one failed parse of the other ISA.",
    design_ref="5/C11, 10.7", technique="TLA+ scan machine + declarative kernel definition, exhaustive TLC, emitted-state replay, batch trace validation",
    note="Trusts the text tables and regex classifier in selrep_common.py, report_parse.py, the recording stand-ins for KernelDG/Frontend; files with a single, repeated or reversed marker are left open."),
  "C13": dict(
    category="model_checking",
    text="TLC explores the report as a block-emitting machine over the flag cube x kernel shapes (MC_Report) and the cell rounding relation on the 1/12000 lattice (MC_ReportCells); all 96 flag combinations are realised by real runs and the emitted value table is injected into really analysed kernels; "
-        "real reports (API + CLI/--yaml-out, all models, fixed/optimal, --ignore-unknown, default arch, large kernels, unknown mnemonics, sums >= 10 and >= 100, LCD time-out) are parsed back and validated clause by clause by TLC (Trace_Report); whole-run traces (Osaca.tla) tie the summary to the graph stage.",
+        "real reports (API + CLI/--yaml-out, all models, fixed/optimal, --ignore-unknown, default arch, large kernels, unknown mnemonics, sums >= 10 and >= 100, LCD time-out) are parsed back and validated clause by clause by TLC (Trace_Report); whole-run traces (Osaca.tla) tie the summary to the graph stage. The injection runs give every second kernel latencies of quarter cycles; files at the threshold of the large-kernel warning contain non-instruction lines; the user warnings are clauses of Osaca.tla's front door.",
    design_ref="5/C13, 10.7", technique="TLA+ block machine + cell-rounding relation, exhaustive TLC, replay, batch trace validation of parsed reports",
    note="Trusts harness/report_parse.py (column layout taken from the report's own header) and the projection to (digits, integer) cells; the LCD time-out warning is not in the statement (only text/dict agreement is Level A)."),
  "C15": dict(
